@@ -33,7 +33,10 @@ LEVEL_TEXT["C18"] = ("Theorems (every n, every mask) that each Coalition operato
 LEVEL_TEXT["C05"] = ("Theorems for every n and every ordered field: model exploitability = Σ_S (upper−lower)/C(n,|S|) − upper(∅) (+ the general identity for arbitrary vectors), "
                      "= Σ_i Shapley_i(max-gain game_i) − v(N); non-negative when lower ≤ upper, zero iff all intervals degenerate, per-player domination over every completion in the box, "
                      "defined iff the grand coalition is known. Tied to exploitability.py / shapley.py by exact differential runs (values multiples of n!·2^-k so float64 is exact) on the real "
-                     "class and a protocol stub, plus an exact-Fraction oracle of every clause on the real code.")
+                     "class and a protocol stub, plus an exact-Fraction oracle of every clause on the real code. 'Within float rounding as computed' is made precise by ICG.ApproxShapley "
+                     "(Props/FloatErrorShapley): with +, −, ×, ÷ of absolute error ≤ δ on the operations actually performed, in the code's order, every computed Shapley value is within "
+                     "B(n,δ) = (2 + 2^n/n!)·δ of the exact one, the computed exploitability within n·B + (n+1)·δ, hence ≥ −that slack when lower ≤ upper (all three bounds attained by a witness); "
+                     "rounded and exact computations raise on exactly the same inputs; relative-error (float64) bridge.")
 LEVEL_TEXT["C06"] = ("Theorems for EVERY n (not n ≤ 7): the model's Shapley value equals the average marginal contribution over all n! orderings; efficiency, symmetry under every "
                      "permutation of players, null player, linearity, the two entry points agree. Tied to shapley.py by exact differential runs and an itertools n!-orderings oracle on the real code.")
 LEVEL_TEXT["C19"] = ("Theorems for every sequence of saves from any store: an entry once present never changes, saving an existing name is the identity, a new name reads back as saved, "
